@@ -115,6 +115,50 @@ def check_jacobians(seed, n_per, kinds=('R2', 'R3', 'SE2', 'SE3')):
                                       'analytic': J.tolist(), 'numeric': Jn.tolist()})
                 except Exception as ex:  # noqa
                     fails.append({'class': k, 'method': name, 'self': s, 'other': o, 'why': 'raised %r' % (ex,)})
+    # (a) the difference p1 (-) p2 depends on the positions through t1 - t2 only: its Jacobians are the same matrices when both poses are moved by a
+    #     common translation, e.g. to UTM / ECEF coordinates where the two poses are a few metres apart;
+    # (b) an operand given as a raw ndarray of integer dtype means the same numbers as the float array
+    for k in kinds:
+        for name in ['jacobian_self_ominus_other_wrt_self', 'jacobian_self_ominus_other_wrt_self_compact',
+                     'jacobian_self_ominus_other_wrt_other', 'jacobian_self_ominus_other_wrt_other_compact']:
+            for i in range(max(1, n_per // 10)):
+                s1, s2 = safe_vals(rng, k, 'typical'), safe_vals(rng, k, 'typical')
+                nt = len(np.asarray(make_pose(POINT[k], safe_vals(rng, POINT[k], 'typical'))))
+                for j in range(nt):
+                    s1[j], s2[j] = rng.gauss(0, 3), rng.gauss(0, 3)
+                c_ = [rng.choice([5e5, 4.1e6, -6.3e6]) + rng.uniform(-100, 100) for _ in range(nt)]
+                try:
+                    J0 = np.asarray(getattr(make_pose(k, s1), name)(make_pose(k, s2)), dtype=np.float64)
+                    f1 = [s1[j] + c_[j] for j in range(nt)] + list(s1[nt:])
+                    f2 = [s2[j] + c_[j] for j in range(nt)] + list(s2[nt:])
+                    J1 = np.asarray(getattr(make_pose(k, f1), name)(make_pose(k, f2)), dtype=np.float64)
+                    evals += 1
+                    if J0.shape != J1.shape or not np.allclose(J0, J1, rtol=0, atol=1e-6 * (1 + float(np.abs(J0).max()))):
+                        fails.append({'class': k, 'method': name, 'self': f1, 'other': f2,
+                                      'why': 'the Jacobian of self (-) other changes by %g when both poses are moved by the common translation %s'
+                                             % (float(np.abs(J0 - J1).max()) if J0.shape == J1.shape else -1.0, c_), 'near_origin': J0.tolist(), 'far': J1.tolist()})
+                except Exception as ex:  # noqa
+                    fails.append({'class': k, 'method': name, 'self': s1, 'other': s2, 'why': 'raised %r' % (ex,)})
+        for name in ['jacobian_self_oplus_other_wrt_self', 'jacobian_self_oplus_other_wrt_self_compact', 'jacobian_self_oplus_other_wrt_other',
+                     'jacobian_self_oplus_other_wrt_other_compact', 'jacobian_self_oplus_point_wrt_self', 'jacobian_self_oplus_point_wrt_point']:
+            for i in range(max(1, n_per // 15)):
+                s1 = safe_vals(rng, k, 'typical')
+                n_o = len(np.asarray(make_pose(POINT[k] if 'point' in name else k, safe_vals(rng, POINT[k] if 'point' in name else k, 'typical'))))
+                if k == 'SE3' and 'point' not in name:
+                    continue        # an integer quaternion other than the identity is not a pose
+                iv = np.array([rng.randint(-4, 4) for _ in range(n_o)])
+                if k == 'SE2' and 'point' not in name:
+                    iv[2] = rng.choice([0, 1, -2])
+                try:
+                    Ji = np.asarray(getattr(make_pose(k, s1), name)(iv), dtype=np.float64)
+                    Jf = np.asarray(getattr(make_pose(k, s1), name)(iv.astype(np.float64)), dtype=np.float64)
+                    evals += 1
+                    if Ji.shape != Jf.shape or not np.allclose(Ji, Jf, rtol=0, atol=1e-12 * (1 + float(np.abs(Jf).max()))):
+                        fails.append({'class': k, 'method': name, 'self': s1, 'other': iv.tolist(),
+                                      'why': 'the Jacobian differs when the operand is given as an ndarray of dtype %s instead of float64 (same numbers)' % iv.dtype,
+                                      'with_int': Ji.tolist(), 'with_float': Jf.tolist()})
+                except Exception as ex:  # noqa
+                    pass            # a raw array operand is not accepted by every Jacobian method: only value differences are judged
     # the Jacobians are functions of the CURRENT numbers of the pose, not of the object's history: call, overwrite the pose array in
     # place (poses are ndarray subclasses), call again -> must equal the same call on a fresh pose holding the same numbers
     METHS = ['jacobian_self_oplus_other_wrt_self', 'jacobian_self_oplus_other_wrt_self_compact', 'jacobian_self_oplus_other_wrt_other',
@@ -277,6 +321,14 @@ def group_laws(seed, n_per, kinds=('R2', 'R3', 'SE2', 'SE3')):
                     a_, b_ = np.asarray(f(P), dtype=np.float64), np.asarray(f(fresh), dtype=np.float64)
                     chk(k, 'no_object_history_' + nm, a_.shape == b_.shape and np.allclose(a_, b_, rtol=0, atol=1e-12 * (1 + float(np.abs(b_).max()))),
                         {'a': [float(x) for x in np.asarray(P)], 'b': so, 'first_values_of_the_same_object': list(s1), 'stale': a_.tolist(), 'fresh': b_.tolist()})
+            # a point / pose given as a plain float ndarray means the same as the PoseR2 / PoseR3 / pose object holding those numbers
+            A = make_pose(k, safe_vals(rng, k, 'typical'))
+            ptp = make_pose(POINT[k], safe_vals(rng, POINT[k], 'typical'))
+            r_obj = np.asarray(A + ptp, dtype=np.float64)
+            r_arr = np.asarray(A + np.array(np.asarray(ptp), dtype=np.float64), dtype=np.float64)
+            if POINT[k] != k:
+                chk(k, 'raw_array_point', r_obj.shape == r_arr.shape and np.allclose(r_obj, r_arr, rtol=0, atol=1e-12 * (1 + float(np.abs(r_obj).max()))),
+                    {'a': [float(x) for x in np.asarray(A)], 'point': [float(x) for x in np.asarray(ptp)], 'with_object': r_obj.tolist(), 'with_raw_array': r_arr.tolist()})
             # raw ndarray right operands of integer dtype (a point (3, -2), an increment (1, 2, 0), np.zeros(n, dtype=int)) mean the same numbers
             A = make_pose(k, safe_vals(rng, k, 'typical'))
             ip = np.array([rng.randint(-4, 4) for _ in range(len(np.asarray(make_pose(POINT[k], safe_vals(rng, POINT[k], 'typical')))))])
@@ -331,9 +383,11 @@ def manifold_invariants(seed, n, chain_len=None):
     # SE(2) angles
     for i in range(n * 5):
         evals += 1
-        c = rng.choice(['big', 'oddpi', 'uniform'])
+        c = rng.choice(['big', 'oddpi', 'nearpi', 'uniform'])
         if c == 'big':
             th = rng.uniform(-1e6, 1e6)
+        elif c == 'nearpi':          # close to the branch cut, not on it
+            th = (2 * rng.randint(-3, 3) + 1) * math.pi + rng.choice([-1, 1]) * 10.0 ** rng.uniform(-8, -4)
         elif c == 'oddpi':
             m = (2 * rng.randint(-50, 50) + 1) * math.pi
             th = rng.choice([m, math.nextafter(m, 1e9), math.nextafter(m, -1e9), m + rng.uniform(-1e-9, 1e-9)])
@@ -342,8 +396,10 @@ def manifold_invariants(seed, n, chain_len=None):
         th2 = rng.uniform(-1e3, 1e3)
         A = PoseSE2([rng.gauss(0, 5), rng.gauss(0, 5)], th)
         B = PoseSE2([rng.gauss(0, 5), rng.gauss(0, 5)], th2)
+        from graphslam.vertex import Vertex as _Vx
+        Vg = _Vx.from_g2o('VERTEX_SE2 7 1.5 -2.0 %r' % th)            # a pose read from a file goes through the same normalisation
         for nm, P, exact in (('new', A, th), ('oplus', A + B, th + th2), ('ominus', A - B, th - th2), ('inverse', A.inverse, -th),
-                             ('boxplus', A + np.array([0.1, 0.2, th2]), th + th2), ('copy', A.copy(), th)):
+                             ('boxplus', A + np.array([0.1, 0.2, th2]), th + th2), ('copy', A.copy(), th), ('Vertex.from_g2o', Vg.pose, th)):
             ang = float(P[2])
             if not (-math.pi <= ang <= math.pi):
                 bad('SE2 angle out of [-pi,pi] after ' + nm, {'class': 'SE2', 'theta': th, 'theta2': th2, 'angle': ang})
